@@ -18,12 +18,60 @@ def registry_enumeration(rep):
     return ("C11.registry: complete enumeration of the live dispatch tables", d["items"], d["failures"], d.get("note", ""))
 
 
+def signature_parity(rep):
+    """[E] AST enumeration, re-read from /repo on every run: every public Tensor method that has a mygrad function of the same name lists its
+    positional parameters (after self / after the tensor argument) under the same names, in the same order, with the same defaults -- so that
+    x.f(a, b) and mg.f(x, a, b) bind a and b to the same parameters.  Methods / functions that take *varargs (reshape, transpose) are compared
+    on their named parameters only."""
+    import ast
+
+    from pyvc import frontend
+
+    items, failures = [], []
+    tb = frontend.load_module("mygrad.tensor_base")
+    cls = next(n for n in tb.tree.body if isinstance(n, ast.ClassDef) and n.name == "Tensor")
+    methods = {n.name: n for n in cls.body if isinstance(n, ast.FunctionDef) and not n.name.startswith("_")}
+    funcs = {}
+    for modname in frontend.iter_package_modules("mygrad"):
+        if ".nnet" in modname or ".random" in modname:
+            continue
+        m = frontend.load_module(modname)
+        for n in m.tree.body:
+            if isinstance(n, ast.FunctionDef) and n.name in methods and not modname.endswith("tensor_base"):
+                funcs.setdefault(n.name, (modname, n))
+
+    def sig(fn, skip):
+        a = fn.args
+        pos = list(a.posonlyargs) + list(a.args)
+        names = [x.arg for x in pos][skip:]
+        defaults = [None] * (len(pos) - len(a.defaults)) + [ast.dump(d) for d in a.defaults]
+        return list(zip(names, defaults[skip:]))
+
+    for name, meth in sorted(methods.items()):
+        if name not in funcs:
+            continue
+        modname, fn = funcs[name]
+        ms, fs = sig(meth, 1), sig(fn, 1)
+        if meth.args.vararg or fn.args.vararg:
+            fs_names = {n for n, _ in fs}
+            ms = [(n, d) for n, d in ms if n in fs_names]
+            fs = [(n, d) for n, d in fs if n in {x for x, _ in ms}]
+        k = min(len(ms), len(fs))
+        where = f"Tensor.{name}{[n for n, _ in ms]} / {modname}:{name}{[n for n, _ in fs]}"
+        items.append(where)
+        if [n for n, _ in ms[:k]] != [n for n, _ in fs[:k]]:
+            failures.append(dict(name=f"C11.signature_parity[{name}].positional_order", input=dict(method=[n for n, _ in ms], function=[n for n, _ in fs]), detail=f"x.{name}(*args) and mg.{name}(x, *args) bind positional arguments to different parameters: {where}", confirmed=False))
+        elif any(dm != df for (_, dm), (_, df) in zip(ms[:k], fs[:k])):
+            failures.append(dict(name=f"C11.signature_parity[{name}].defaults", input=dict(method=ms, function=fs), detail=f"defaults differ: {where}", confirmed=False))
+    return ("C11.signature_parity: method and function forms bind positional arguments identically", items, failures, "")
+
+
 def run(tier, seed):
     return run_property(
         "C11", tier, seed, level="other",
         deductive=[("c11_dunder", None), ("c03_wrappers", r"constant_forwarded|reaches_op_unchanged|result_returned"), ("c11_dispatch", None)],
         replay=_replay,
-        enumerations=[registry_enumeration],
+        enumerations=[registry_enumeration, signature_parity],
         bounded=[("api_bounded.py", ["--check", "C11"])],
         trusted=["NumPy's __array_ufunc__/__array_function__ dispatch protocol"],
         assumptions=[
